@@ -21,14 +21,99 @@ type exhSym struct {
 	name string
 	mk   func(g *exhGen) HOp
 	once bool
+	key  int // symbols with the same key exclude each other (0 = the symbol's own index + 1)
+	// needs: 1 + index of a symbol that must have occurred earlier (0 = none); prev: cleanup whose cut-off is the boundary
+	// one operation earlier (what arrived in the previous operation is younger than it)
+	needs int
+	prev  bool
+}
+
+// exhScope: an alphabet with its own length bound and plan rule; props: the properties whose checks run it (nil = all)
+type exhScope struct {
+	name   string
+	syms   []exhSym
+	extra  bool // its length bound is -xlen instead of -len
+	derive bool // plans derived from the history (plans.go) instead of "the login with the LOGIN record's pid"
+	props  map[string]bool
+}
+
+// scope "onepid": ONE sshd pid: its login, a SECOND login of that pid (after the first: they come through one pipe),
+// the records of session 1, the LOGIN record and a record of session 4 opened by the same pid (after session 1's
+// disposal record: audit records come through one pipe too), both cleanups with the cut-off "now" and with the cut-off
+// one operation earlier (so that a cut-off can fall between two arrivals).  The second login may arrive while the first
+// still waits, while session 1 is open, before or after session 1's disposal record.
+var exhOnePid = []exhSym{
+	{name: "login1", mk: func(g *exhGen) HOp { return g.login(71) }, once: true},
+	{name: "login1'", mk: func(g *exhGen) HOp { return g.login(71) }, once: true, needs: 1},
+	{name: "LOGIN1", mk: func(g *exhGen) HOp { return g.audit("1", "LOGIN", "71") }, once: true},
+	{name: "ev1", mk: func(g *exhGen) HOp { return g.audit("1", "USER_START", "1071") }},
+	{name: "disp1", mk: func(g *exhGen) HOp { return g.audit("1", "CRED_DISP", "71") }},
+	{name: "LOGIN4", mk: func(g *exhGen) HOp { return g.audit("4", "LOGIN", "71", "auid", "1001") }, once: true, needs: 5},
+	{name: "ev4", mk: func(g *exhGen) HOp { return g.audit("4", "USER_START", "1071", "auid", "1001") }},
+	{name: "clean_sess", mk: func(g *exhGen) HOp { return HOp{Kind: "clean_sess"} }},
+	{name: "clean_logins", mk: func(g *exhGen) HOp { return HOp{Kind: "clean_logins"} }},
+	{name: "clean_sess/prev", mk: func(g *exhGen) HOp { return HOp{Kind: "clean_sess"} }, prev: true},
+	{name: "clean_logins/prev", mk: func(g *exhGen) HOp { return HOp{Kind: "clean_logins"} }, prev: true},
+}
+
+var exhScopes = []exhScope{
+	{name: "two", syms: exhAlphabet},
+	{name: "onepid", syms: exhOnePid, extra: true, derive: true, props: map[string]bool{"C09": true, "C16": true}},
+}
+
+func (sc exhScope) runsFor(prop string) bool { return sc.props == nil || sc.props[prop] }
+
+func (sc exhScope) bound(maxLen, xLen int) int {
+	if sc.extra {
+		return xLen
+	}
+	return maxLen
+}
+
+// exhWalk enumerates the histories of a scope in a fixed order.
+func exhWalk(sc exhScope, maxLen int, visit func(word []int)) {
+	word := []int{}
+	var rec func(used, seen uint64)
+	rec = func(used, seen uint64) {
+		if len(word) > 0 {
+			visit(word)
+		}
+		if len(word) == maxLen {
+			return
+		}
+		for i, s := range sc.syms {
+			if s.once && used&s.bit(i) != 0 {
+				continue
+			}
+			if s.needs > 0 && seen&(1<<uint(s.needs-1)) == 0 {
+				continue
+			}
+			u := used
+			if s.once {
+				u |= s.bit(i)
+			}
+			word = append(word, i)
+			rec(u, seen|1<<uint(i))
+			word = word[:len(word)-1]
+		}
+	}
+	rec(0, 0)
 }
 
 type exhGen struct {
 	ev, lg int
 }
 
-func (g *exhGen) audit(ses, typ, pid string) HOp {
+func (g *exhGen) audit(ses, typ, pid string, kv ...string) HOp {
 	e := &HEvent{ID: g.ev, Ses: ses, Type: typ, PIDText: pid}
+	if typ == "LOGIN" {
+		e.Fields = map[string]string{"old-ses": unsetID, "old-auid": "unset", "auid": "1000", "uid": "0", "tty": "(none)"}
+	} else {
+		e.Fields = map[string]string{"auid": "1000", "uid": "0", "terminal": "ssh", "ppid": "71"}
+	}
+	for i := 0; i+1 < len(kv); i += 2 {
+		e.Fields[kv[i]] = kv[i+1]
+	}
 	g.ev++
 	return HOp{Kind: "audit", Event: e}
 }
@@ -40,26 +125,68 @@ func (g *exhGen) login(pid int) HOp {
 }
 
 var exhAlphabet = []exhSym{
-	{"login1", func(g *exhGen) HOp { return g.login(71) }, true},
-	{"login2", func(g *exhGen) HOp { return g.login(72) }, true},
-	{"LOGIN1", func(g *exhGen) HOp { return g.audit("1", "LOGIN", "71") }, true},
-	{"LOGIN2", func(g *exhGen) HOp { return g.audit("2", "LOGIN", "72") }, true},
-	{"ev1", func(g *exhGen) HOp { return g.audit("1", "USER_START", "1071") }, false},
-	{"ev2", func(g *exhGen) HOp { return g.audit("2", "USER_CMD", "1072") }, false},
-	{"disp1", func(g *exhGen) HOp { return g.audit("1", "CRED_DISP", "71") }, false},
-	{"disp2", func(g *exhGen) HOp { return g.audit("2", "CRED_DISP", "72") }, false},
-	{"LOGIN3", func(g *exhGen) HOp { return g.audit("3", "LOGIN", "99") }, true}, // cron-like: no login
-	{"ev3", func(g *exhGen) HOp { return g.audit("3", "USER_ACCT", "1099") }, false},
-	{"clean_sess", func(g *exhGen) HOp { return HOp{Kind: "clean_sess"} }, false},
-	{"clean_logins", func(g *exhGen) HOp { return HOp{Kind: "clean_logins"} }, false},
+	{name: "login1", mk: func(g *exhGen) HOp { return g.login(71) }, once: true},
+	{name: "login2", mk: func(g *exhGen) HOp { return g.login(72) }, once: true},
+	{name: "LOGIN1", mk: func(g *exhGen) HOp { return g.audit("1", "LOGIN", "71") }, once: true},
+	{name: "LOGIN2", mk: func(g *exhGen) HOp { return g.audit("2", "LOGIN", "72") }, once: true},
+	{name: "ev1", mk: func(g *exhGen) HOp { return g.audit("1", "USER_START", "1071") }},
+	{name: "ev2", mk: func(g *exhGen) HOp { return g.audit("2", "USER_CMD", "1072") }},
+	{name: "disp1", mk: func(g *exhGen) HOp { return g.audit("1", "CRED_DISP", "71") }},
+	{name: "disp2", mk: func(g *exhGen) HOp { return g.audit("2", "CRED_DISP", "72") }},
+	{name: "LOGIN3", mk: func(g *exhGen) HOp { return g.audit("3", "LOGIN", "99") }, once: true}, // cron-like: no login
+	{name: "ev3", mk: func(g *exhGen) HOp { return g.audit("3", "USER_ACCT", "1099") }},
+	{name: "clean_sess", mk: func(g *exhGen) HOp { return HOp{Kind: "clean_sess"} }},
+	{name: "clean_logins", mk: func(g *exhGen) HOp { return HOp{Kind: "clean_logins"} }},
+	// the LOGIN record of session 2 as it looks when its process was started from inside session 1 (instead of LOGIN2)
+	{name: "LOGIN2/old-ses=1", mk: func(g *exhGen) HOp {
+		return g.audit("2", "LOGIN", "72", "old-ses", "1", "old-auid", "1000", "tty", "pts0")
+	}, once: true, key: 4},
 }
 
-func exhHistory(word []int) History {
+func (s exhSym) bit(i int) uint64 {
+	if s.key > 0 {
+		return 1 << uint(s.key-1)
+	}
+	return 1 << uint(i)
+}
+
+// exhSerials: the records' serials along the history, by a policy that rotates with the history's number: all zero,
+// running down from 2^32-1, running up through 2^32, running down from a small number, all equal.
+func exhSerials(h *History, n int) {
+	pol := n % 5
+	h.Serials = []string{"zero", "decreasing", "wrap", "decreasing-small", "equal"}[pol]
+	j := uint32(0)
+	for i := range h.Ops {
+		if h.Ops[i].Kind != "audit" {
+			continue
+		}
+		e := h.Ops[i].Event
+		switch pol {
+		case 1:
+			e.Seq = 1<<32 - 1 - j
+		case 2:
+			e.Seq = 1<<32 - 2 + j
+		case 3:
+			e.Seq = 9 - j
+		case 4:
+			e.Seq = 77
+		}
+		if n%3 == 1 {
+			e.TSms = procStart.UnixMilli() + int64(j)
+		}
+		j++
+	}
+}
+
+func exhHistory(sc exhScope, word []int) History {
 	g := &exhGen{}
 	h := History{Budget: -1, Mode: "exhaustive", Plans: map[string]SessPlan{}}
+	if sc.name != "two" {
+		h.Mode = "exhaustive-" + sc.name
+	}
 	loginOf := map[int]int{}
 	for _, w := range word {
-		op := exhAlphabet[w].mk(g)
+		op := sc.syms[w].mk(g)
 		h.Ops = append(h.Ops, op)
 		if op.Kind == "login" {
 			loginOf[op.Login.PID] = op.Login.ID
@@ -73,7 +200,14 @@ func exhHistory(word []int) History {
 			h.Ops[i].Login = &l
 		case "clean_sess", "clean_logins":
 			h.Ops[i].Cut = i // cut-off = the boundary just before the call: everything pending is older
+			if sc.syms[word[i]].prev && i > 0 {
+				h.Ops[i].Cut = i - 1
+			}
 		}
+	}
+	if sc.derive {
+		h.Plans = derivePlans(h.Ops)
+		return h
 	}
 	for _, op := range h.Ops {
 		if op.Kind == "audit" && op.Event.Type == "LOGIN" {
@@ -96,106 +230,97 @@ func exhHistory(word []int) History {
 	return h
 }
 
-func exhMain(out, prop string, maxLen, coqBudget int, seed uint64) {
+func exhMain(out, prop string, maxLen, xLen, coqBudget int, seed uint64) {
+	if xLen <= 0 {
+		xLen = maxLen + 1
+	}
 	os.MkdirAll(out, 0o755)
+	var scopes []exhScope
+	for _, sc := range exhScopes {
+		if sc.runsFor(prop) {
+			scopes = append(scopes, sc)
+		}
+	}
 	sum := hutil.NewSummary(prop, seed,
-		fmt.Sprintf("EXHAUSTIVE: every history of length 1..%d over the alphabet {%s} in which each login and each LOGIN record occurs at most once; cleanup cut-offs = the instant of the call; "+
-			"each history runs on the real correlator, is judged by the %s oracle, and (all of them, or an evenly spaced subset of at most %d) is replayed step by step against the Coq model; "+
-			"non-trivial = at least one event emitted; distinct by construction", maxLen, exhNames(), prop, coqBudget))
+		fmt.Sprintf("EXHAUSTIVE: every history up to a length bound over %s; in each, a login / LOGIN record occurs at most once (LOGIN2 in one of its two variants: old-ses unset, or naming session 1); "+
+			"cleanup cut-offs = the instant of the call (\"/prev\": one operation earlier); "+
+			"the records' serials rotate with the history's number (all zero, down from 2^32-1, up through 2^32, down from 9, all equal); "+
+			"each history runs on the real correlator, is judged by the %s oracle (scope onepid: the sessions' logins derived from the history alone; outcomes the property texts leave open are not judged), "+
+			"and (all of them, or an evenly spaced subset of at most %d) is replayed step by step against the Coq model; "+
+			"non-trivial = at least one event emitted; distinct by construction", exhNames(scopes, maxLen, xLen), prop, coqBudget))
 	cases := &hutil.CaseFile{Dir: out, Stem: "cases_tracker_exh", PerFile: 60,
 		Header: "From Coq Require Import List Bool Arith ZArith NArith.\nImport ListNotations.\nFrom AM Require Import Model.Tracker Model.TrackerCheck.\nOpen Scope Z_scope.\n",
 		Footer: func(int) string {
 			return "Definition M := Eval vm_compute in mismatches cases.\nPrint M.\nDefinition B := Eval vm_compute in first_bad cases.\nPrint B.\n"
 		}}
+	seqWatchdog = hutil.NewWatchdog(seqHangReporter(sum, cases, out))
 	// count first, to space the Coq subset evenly
 	total := 0
-	var count func(depth int, used uint64)
-	count = func(depth int, used uint64) {
-		if depth > 0 {
-			total++
-		}
-		if depth == maxLen {
-			return
-		}
-		for i, s := range exhAlphabet {
-			if s.once && used&(1<<uint(i)) != 0 {
-				continue
-			}
-			u := used
-			if s.once {
-				u |= 1 << uint(i)
-			}
-			count(depth+1, u)
-		}
+	for _, sc := range scopes {
+		exhWalk(sc, sc.bound(maxLen, xLen), func([]int) { total++ })
 	}
-	count(0, 0)
 	every := 1
 	if total > coqBudget {
 		every = (total + coqBudget - 1) / coqBudget
 	}
 	n := 0
-	word := []int{}
-	var rec func(used uint64)
-	rec = func(used uint64) {
-		if len(word) > 0 {
-			h := exhHistory(word)
+	for _, sc := range scopes {
+		sc := sc
+		samples := 0
+		bound := sc.bound(maxLen, xLen)
+		exhWalk(sc, bound, func(word []int) {
+			h := exhHistory(sc, word)
 			h.Debug = n%3 == 2
+			exhSerials(&h, n)
 			rn := newRunner(h)
 			res := rn.run()
 			n++
 			if res.Err != "" {
 				sum.Fail("harness", "cannot interpret the implementation's state: "+res.Err, h)
-			} else {
-				for _, f := range judge(prop, h, res) {
-					sum.FailKey("oracle", f.key, f.what, map[string]any{"history": h, "detail": f.detail})
-				}
-				nt := len(res.Emitted) > 0
-				sum.Count(fmt.Sprint(word), nt)
-				sum.Dist(fmt.Sprintf("length_%d", len(word)))
-				sum.Dist(fmt.Sprintf("emitted_%d", len(res.Emitted)))
-				if n%every == 0 {
-					if c, err := rn.coqCase(res); err != nil {
-						sum.Fail("harness", err.Error(), h)
-					} else {
-						cases.AddDesc(c, h)
-					}
-				}
-				if len(sum.Samples) < 3 && len(word) == maxLen && nt {
-					var names []string
-					for _, w := range word {
-						names = append(names, exhAlphabet[w].name)
-					}
-					sum.Sample(map[string]any{"history": strings.Join(names, " ; "), "emitted": len(res.Emitted)})
+				return
+			}
+			for _, f := range judge(prop, h, res) {
+				sum.FailKey("oracle", f.key, f.what, map[string]any{"history": h, "detail": f.detail})
+			}
+			nt := len(res.Emitted) > 0
+			sum.Count(sc.name+fmt.Sprint(word), nt)
+			sum.Dist(fmt.Sprintf("scope_%s_length_%d", sc.name, len(word)))
+			sum.Dist(fmt.Sprintf("emitted_%d", len(res.Emitted)))
+			if n%every == 0 {
+				if c, err := rn.coqCase(res); err != nil {
+					sum.Fail("harness", err.Error(), h)
+				} else {
+					cases.AddDesc(c, h)
 				}
 			}
-		}
-		if len(word) == maxLen {
-			return
-		}
-		for i, s := range exhAlphabet {
-			if s.once && used&(1<<uint(i)) != 0 {
-				continue
+			if samples < 2 && len(word) == bound && nt {
+				samples++
+				var names []string
+				for _, w := range word {
+					names = append(names, sc.syms[w].name)
+				}
+				sum.Sample(map[string]any{"scope": sc.name, "history": strings.Join(names, " ; "), "emitted": len(res.Emitted)})
 			}
-			u := used
-			if s.once {
-				u |= 1 << uint(i)
-			}
-			word = append(word, i)
-			rec(u)
-			word = word[:len(word)-1]
-		}
+		})
 	}
-	rec(0)
 	sum.Notes = append(sum.Notes, fmt.Sprintf("exhaustive: %d histories, every %d-th replayed against the Coq model", total, every))
 	cases.Flush()
 	sum.CaseFiles = cases.Files
 	sum.Write(out)
 }
 
-func exhNames() string {
-	var ns []string
-	for _, s := range exhAlphabet {
-		ns = append(ns, s.name)
+func exhNames(scopes []exhScope, maxLen, xLen int) string {
+	var out []string
+	for _, sc := range scopes {
+		var ns []string
+		for _, s := range sc.syms {
+			n := s.name
+			if s.needs > 0 {
+				n += " (after " + sc.syms[s.needs-1].name + ")"
+			}
+			ns = append(ns, n)
+		}
+		out = append(out, fmt.Sprintf("scope %q (length <= %d) {%s}", sc.name, sc.bound(maxLen, xLen), strings.Join(ns, ", ")))
 	}
-	return strings.Join(ns, ", ")
+	return strings.Join(out, "; ")
 }
